@@ -42,6 +42,9 @@ PROPS = {
     'C14': ('contracts.c14', 'proof',
             'option actions step contracts, registry, get_mutators, pass '
             'construction, theory detection'),
+    'C16': ('contracts.c16', 'proof',
+            'sort/width inference against a typing table, per operator '
+            'schema with opaque operands (structural induction)'),
 }
 
 
